@@ -33,5 +33,7 @@ def run(rep, tier):
     H.r_term(rep, hc)
     rep.rule("R-DIR-FROM", "the integer conversion into Direction selects by sign (exact evaluation at the function's literals, their neighbours and the i32 range ends)")
     H.r_dir_from(rep, f)
+    rep.rule("R-CONFIG-FRAME", "each &mut self setter of EventConfig writes exactly one of the two settings (direction filter, terminal count) and leaves the other as configured")
+    H.r_config_frame(rep, f)
     rep.explanation = ("Structural + finite-domain: shapes, provenance of reported event states, complete truth table of the direction filter, "
                        "chronological ordering. Not decided: |g(t_e,y_e)| small and t_e inside the bracket (Brent's invariants over run-time floats).")
